@@ -14,7 +14,7 @@ class Z3H:
         self.ufs = {}
         self.side = [self.S(z3.RealVal(0)) == 0, self.Cf(z3.RealVal(0)) == 1]   # defining constraints of auxiliary symbols (sqrt, trig identities); sin 0 = 0, cos 0 = 1
         self.domain = []        # domain side conditions (radicand >= 0, denominator != 0): assumed, and reported
-        self._sqrt, self._trig, self.n = {}, {}, 0
+        self._sqrt, self._trig, self._div, self.n = {}, {}, {}, 0
 
     def real(self, v):
         return z3.RealVal(str(v)) if isinstance(v, Fraction) else z3.RealVal(v)
